@@ -48,7 +48,7 @@ def ent_json(oid, cls, word, feats=(), refs=(), faulty=False, rid=None):
 
 def ent_spec(j):
     return EntSpec(j["oid"], cls_by_name(j["cls"]),
-                   CRec(j["rid"], j["word"], feats_from_json(j["feats"]), list(j["refs"])), j.get("faulty", False))
+                   CRec(j["rid"], j["word"], feats_from_json(j["feats"]), list(j["refs"])), j.get("faulty", False), j.get("topo"))
 
 
 def asm_op(case):
@@ -80,6 +80,11 @@ def gen_wellformed(rng, enz, nmods=None, closing=None):
     rng.shuffle(order)
     case = {"enz": name, "vector": v, "mods": [ms[i] for i in order], "pid": rng.randrange(100),
             "pname": rng.randrange(100)}
+    if rng.random() < 0.3:
+        # the topology a GenBank file declares, in the spellings CircularRecord accepts
+        for e in [v] + ms:
+            if rng.random() < 0.7:
+                e["topo"] = rng.choice(["circular", "Circular", "CIRCULAR", "cIrCuLaR"])
     info = {"expected": expected, "vparts": vd, "mparts": [md for _, md in mods], "chain": [i + 1 for i in range(len(ms))]}
     return case, info
 
